@@ -55,7 +55,7 @@ def report (old new : St) : List String :=
   let dv := if new.diverged then ["P DIVERGED"] else []
   let h := hasTasks new
   let has := [s!"P has {if h.1 then 1 else 0} {h.2}"]
-  let asap := String.join (new.asap.map fun t => s!" T{t}")
+  let asap := String.join (new.asap.map fun t => s!" T{t}:{new.ts t}")
   let tl := String.join (new.timedList.map fun t => s!" T{t}:{new.ts t}")
   let heap := String.join (new.timed.items.toList.map fun e => s!" {e.key}:T{e.uid}")
   let run := String.join (new.running.map fun t => s!" T{t}")
